@@ -10,6 +10,7 @@ while a:
     if a[0] == "--tier": tier = a[1]; a = a[2:]
     elif a[0] == "--checks": checks = a[1].split(","); a = a[2:]
     else: a = a[1:]
+SNAP = os.environ.get("VERIF_SNAP", "/verif")   # tree of /verif whose checks are run (a built snapshot while /verif is being edited)
 wt = f"/tmp/seed-{name}"
 def sh(cmd, **k):
     return subprocess.run(cmd, shell=True, stdout=subprocess.PIPE, stderr=subprocess.STDOUT, text=True, **k)
@@ -28,13 +29,13 @@ try:
     r = subprocess.run("go build ./... 2>&1 | grep -v warning | grep '\\.go:' | grep -v '^cmd/test/' | head", shell=True, cwd=wt, env=env, stdout=subprocess.PIPE, text=True)
     res["compiles"] = r.stdout.strip() == ""   # cmd/test/main.go does not compile at HEAD either (stale call of NewKmerMap): ignored
     res["compile_errors"] = r.stdout.strip()[:300]
-    r = subprocess.run(["/verif/scripts/baseline.py"], env=dict(os.environ, VERIF_REPO=wt), stdout=subprocess.PIPE, text=True)
+    r = subprocess.run([SNAP + "/scripts/baseline.py"], env=dict(os.environ, VERIF_REPO=wt), stdout=subprocess.PIPE, text=True)
     res["existing_tests"] = r.stdout.strip().split("\n")[0]
     res["existing_tests_pass"] = r.returncode == 0
     res["checks"] = {}
     for c in checks:
         t0 = time.time()
-        r = subprocess.run(["/verif/check", c, "--tier", tier], cwd="/verif", env=dict(os.environ, VERIF_REPO=wt), stdout=subprocess.PIPE, stderr=subprocess.STDOUT, text=True)
+        r = subprocess.run([SNAP + "/check", c, "--tier", tier], cwd=SNAP, env=dict(os.environ, VERIF_REPO=wt), stdout=subprocess.PIPE, stderr=subprocess.STDOUT, text=True)
         viol = [l for l in r.stdout.split("\n") if l.startswith("VIOLATION")]
         detail = [l.strip() for l in r.stdout.split("\n") if l.strip().startswith(("failing input", "broken"))][:4]
         res["checks"][c] = {"tier": tier, "exit": r.returncode, "violation": viol[0] if viol else None, "detail": detail, "wall_s": round(time.time() - t0, 1)}
